@@ -8,208 +8,6 @@ From Asn1V Require Import Base.Prelude Base.Sweep Base.Bits Base.BitsProofs
 
 Ltac Zify.zify_post_hook ::= Z.div_mod_to_equations.
 
-Section Ext.
-  Variable encT : ty -> value -> result bits.
-  Variable decT : ty -> reader value.
-  Variable normT : ty -> value -> value.
-  Variable res : ty -> ty.
-  Hypothesis HT : forall t v bs, encT t v = Ok bs -> forall rest, decT t (bs ++ rest) = Ok (normT t v, rest).
-
-  (** an open type of an addition the decoder does not know is skipped by its length *)
-  Lemma open_type_skip (bs : bits) tail :
-    (Z.of_nat (length (pad8 bs) / 8) <? 16384) = true ->
-    forall (k : list (string * value) -> reader (list (string * value))),
-    (do* open_len <- read_len;
-     do* (fs, consumed) <- with_consumed (dec_one_addition decT [] open_len);
-     do* _ <- (let al := (consumed mod 8)%nat in if (al =? 0)%nat then rret tt else skip_bits (8 - al));
-     k fs) (enc_len_short (Z.of_nat (length (pad8 bs) / 8)) ++ pad8 bs ++ tail) = k [] tail.
-  Proof.
-    intros Hl k. unfold rbind at 1. rewrite read_len_short by lia.
-    destruct (pad8_length bs) as (q & Hq & Hle & Hdiv).
-    unfold rbind at 1. unfold with_consumed. cbn [dec_one_addition]. unfold rbind at 1.
-    assert (Hs : skip_bits (Z.to_nat (8 * Z.of_nat (length (pad8 bs) / 8))) (pad8 bs ++ tail) = Ok (tt, tail)).
-    { unfold skip_bits. rewrite Hdiv. replace (Z.to_nat (8 * Z.of_nat q)) with (length (pad8 bs)) by lia.
-      rewrite app_length. destruct (length (pad8 bs) + length tail <? length (pad8 bs))%nat eqn:E; [lia|].
-      rewrite skipn_app, Nat.sub_diag. cbn [skipn]. rewrite skipn_all. reflexivity. }
-    rewrite Hs. unfold rret at 1. rewrite app_length.
-    replace (length (pad8 bs) + length tail - length tail)%nat with (length (pad8 bs)) by lia.
-    unfold rbind at 1. rewrite Hq. replace ((8 * q) mod 8)%nat with 0%nat by (rewrite Nat.mul_comm, Nat.mod_mul; lia).
-    cbn [Nat.eqb]. reflexivity.
-  Qed.
-
-  Lemma dec_adds_skip_all processed : forall body k rest,
-    enc_open_types processed = Ok body ->
-    dec_adds decT (map is_some processed ++ repeat false k) [] (body ++ rest) = Ok ([], rest).
-  Proof.
-    induction processed as [|[bs|] processed IH]; intros body k rest; cbn [enc_open_types map app is_some].
-    - intros H. assert (body = []) by congruence. subst. apply dec_adds_all_false.
-    - unfold enc_len_single. destruct (Z.of_nat (length (pad8 bs) / 8) <? 16384) eqn:El; [|discriminate]. cbn [bind].
-      destruct (enc_open_types processed) as [more|] eqn:Em; [|discriminate]. cbn [bind]. intros H.
-      assert (body = enc_len_short (Z.of_nat (length (pad8 bs) / 8)) ++ pad8 bs ++ more) by congruence. subst body.
-      cbn [dec_adds negb tl]. rewrite <- !app_assoc. rewrite (open_type_skip bs _ El).
-      unfold rbind. rewrite (IH _ _ _ eq_refl). reflexivity.
-    - intros H. cbn [dec_adds negb tl]. apply (IH _ _ _ H).
-  Qed.
-
-  (** Encoder knows [common ++ extra_enc], decoder knows [common ++ extra_dec],
-      one of the two extras is empty: the decoder returns exactly the additions
-      of [common] that are present, and resynchronises after the open types. *)
-  Lemma dec_adds_compat common data : forall extra_enc extra_dec processed body k rest,
-    extra_enc = [] \/ extra_dec = [] ->
-    enc_adds encT res (common ++ extra_enc) data = Ok processed ->
-    enc_open_types processed = Ok body ->
-    dec_adds decT (map is_some processed ++ repeat false k) (common ++ extra_dec) (body ++ rest)
-    = Ok (norm_adds encT normT res common data, rest).
-  Proof.
-    induction common as [|[isgroup ms] common IH]; intros extra_enc extra_dec processed body k rest Hx.
-    - cbn [app norm_adds]. destruct Hx as [-> | ->].
-      + cbn [enc_adds]. intros H Hb. assert (processed = []) by congruence. subst. cbn in Hb.
-        assert (body = []) by congruence. subst. cbn [map app]. apply dec_adds_all_false.
-      + intros _ Hb. apply dec_adds_skip_all. exact Hb.
-    - cbn [app enc_adds norm_adds]. destruct isgroup.
-      + destruct (enc_group encT res ms data) as [bs|x] eqn:Eg; cbn [bind].
-        * destruct (enc_adds encT res (common ++ extra_enc) data) as [rest_p|] eqn:Er; [|discriminate]. cbn [bind].
-          intros H. rewrite Bool.orb_false_r in H.
-          destruct (0 <? length bs)%nat eqn:Epos.
-          -- assert (processed = Some bs :: rest_p) by congruence. subst processed. cbn [enc_open_types].
-             unfold enc_len_single.
-             destruct (Z.of_nat (length (pad8 bs) / 8) <? 16384) eqn:El; [|discriminate]. cbn [bind].
-             destruct (enc_open_types rest_p) as [more|] eqn:Em; [|discriminate]. cbn [bind]. intros Hb.
-             assert (body = enc_len_short (Z.of_nat (length (pad8 bs) / 8)) ++ pad8 bs ++ more) by congruence.
-             subst body. cbn [map app is_some dec_adds negb tl]. rewrite <- !app_assoc.
-             rewrite (open_type_rt decT bs (norm_members normT res ms data)); [| |exact El].
-             ++ unfold rbind. rewrite (IH _ _ _ _ _ _ Hx Er Em). reflexivity.
-             ++ intros r. cbn [dec_one_addition]. apply (dec_root_rt encT decT normT res HT).
-                apply enc_group_present; [exact Eg|]. apply Nat.ltb_lt. exact Epos.
-          -- assert (processed = None :: rest_p) by congruence. subst processed. cbn [enc_open_types].
-             intros Hb. cbn [map app is_some dec_adds negb tl]. cbn [app]. apply (IH _ _ _ _ _ _ Hx Er Hb).
-        * destruct x; try discriminate. intros H. assert (processed = []) by congruence. subst.
-          cbn [enc_open_types]. intros Hb. assert (body = []) by congruence. subst.
-          cbn [map app]. apply dec_adds_all_false.
-      + destruct ms as [|m [|m' ms']].
-        * cbn [bind]. discriminate.
-        * unfold enc_member at 1. destruct (lookup (m_name m) data) as [v|] eqn:Elk.
-          -- assert (Henc : enc_member encT res m data true = encT (m_ty m) v).
-             { unfold enc_member. rewrite Elk. destruct (m_opt m); try reflexivity. rewrite Bool.orb_true_r. reflexivity. }
-             assert (Hsame : (match m_opt m with
-                              | Default d => if negb (is_default_value (res (m_ty m)) v d) || true then encT (m_ty m) v else Ok []
-                              | _ => encT (m_ty m) v end) = encT (m_ty m) v).
-             { destruct (m_opt m); try reflexivity. rewrite Bool.orb_true_r. reflexivity. }
-             rewrite Hsame, Henc. destruct (encT (m_ty m) v) as [bs|x] eqn:Eb; cbn [bind].
-             ++ destruct (enc_adds encT res (common ++ extra_enc) data) as [rest_p|] eqn:Er; [|discriminate]. cbn [bind].
-                intros H. rewrite Bool.orb_true_r in H.
-                assert (processed = Some bs :: rest_p) by congruence. subst processed. cbn [enc_open_types].
-                unfold enc_len_single.
-                destruct (Z.of_nat (length (pad8 bs) / 8) <? 16384) eqn:El; [|discriminate]. cbn [bind].
-                destruct (enc_open_types rest_p) as [more|] eqn:Em; [|discriminate]. cbn [bind]. intros Hb.
-                assert (body = enc_len_short (Z.of_nat (length (pad8 bs) / 8)) ++ pad8 bs ++ more) by congruence.
-                subst body. cbn [map app is_some dec_adds negb tl]. rewrite <- !app_assoc.
-                rewrite (open_type_rt decT bs [(m_name m, normT (m_ty m) v)]); [| |exact El].
-                ** unfold rbind. rewrite (IH _ _ _ _ _ _ Hx Er Em). reflexivity.
-                ** intros r. cbn [dec_one_addition]. unfold rbind. rewrite (HT _ _ _ Eb). reflexivity.
-             ++ destruct x; try discriminate. intros H. assert (processed = []) by congruence. subst.
-                cbn [enc_open_types]. intros Hb. assert (body = []) by congruence. subst.
-                cbn [map app]. apply dec_adds_all_false.
-          -- assert (Henc : enc_member encT res m data true =
-                            match m_opt m with Mandatory => Err EEncode | _ => Ok [] end).
-             { unfold enc_member. rewrite Elk. reflexivity. }
-             rewrite Henc. destruct (m_opt m) eqn:Eo; cbn [bind].
-             ++ intros H. assert (processed = []) by congruence. subst.
-                cbn [enc_open_types]. intros Hb. assert (body = []) by congruence. subst.
-                cbn [map app]. apply dec_adds_all_false.
-             ++ destruct (enc_adds encT res (common ++ extra_enc) data) as [rest_p|] eqn:Er; [|discriminate]. cbn [bind].
-                intros H. cbn [length Nat.ltb Nat.leb orb] in H.
-                assert (processed = None :: rest_p) by congruence. subst processed. cbn [enc_open_types].
-                intros Hb. cbn [map app is_some dec_adds negb tl]. apply (IH _ _ _ _ _ _ Hx Er Hb).
-             ++ destruct (enc_adds encT res (common ++ extra_enc) data) as [rest_p|] eqn:Er; [|discriminate]. cbn [bind].
-                intros H. cbn [length Nat.ltb Nat.leb orb] in H.
-                assert (processed = None :: rest_p) by congruence. subst processed. cbn [enc_open_types].
-                intros Hb. cbn [map app is_some dec_adds negb tl]. apply (IH _ _ _ _ _ _ Hx Er Hb).
-        * cbn [bind]. discriminate.
-  Qed.
-
-  Lemma norm_adds_none_gen common data : forall extra processed,
-    enc_adds encT res (common ++ extra) data = Ok processed -> existsb is_some processed = false ->
-    norm_adds encT normT res common data = [].
-  Proof.
-    induction common as [|[isgroup ms] common IH]; intros extra processed; cbn [app enc_adds norm_adds]; [reflexivity|].
-    destruct isgroup.
-    - destruct (enc_group encT res ms data) as [bs|x]; cbn [bind]; [|reflexivity].
-      destruct (enc_adds encT res (common ++ extra) data) as [rest_p|] eqn:Er; [|discriminate]. cbn [bind]. intros H.
-      rewrite Bool.orb_false_r in H. destruct (0 <? length bs)%nat.
-      + assert (processed = Some bs :: rest_p) by congruence. subst. cbn. discriminate.
-      + assert (processed = None :: rest_p) by congruence. subst. cbn [existsb is_some orb]. intros He.
-        cbn [app]. apply (IH _ _ Er He).
-    - destruct ms as [|m [|m' ms']]; try reflexivity.
-      destruct (enc_member encT res m data true) as [bs|x]; cbn [bind]; [|reflexivity].
-      destruct (enc_adds encT res (common ++ extra) data) as [rest_p|] eqn:Er; [|discriminate]. cbn [bind]. intros H.
-      destruct (lookup (m_name m) data) as [v|].
-      + rewrite Bool.orb_true_r in H. assert (processed = Some bs :: rest_p) by congruence. subst. cbn. discriminate.
-      + rewrite Bool.orb_false_r in H. destruct (0 <? length bs)%nat.
-        * assert (processed = Some bs :: rest_p) by congruence. subst. cbn. discriminate.
-        * assert (processed = None :: rest_p) by congruence. subst. cbn [existsb is_some orb]. intros He.
-          cbn [app]. apply (IH _ _ Er He).
-  Qed.
-
-  Lemma dec_additions_compat common extra_enc extra_dec data abits rest :
-    extra_enc = [] \/ extra_dec = [] ->
-    (1 <= length (common ++ extra_enc))%nat ->
-    enc_additions encT res (common ++ extra_enc) data = Ok (Some abits) ->
-    dec_additions decT (common ++ extra_dec) (abits ++ rest) = Ok (norm_adds encT normT res common data, rest).
-  Proof.
-    intros Hx Hne. unfold enc_additions, dec_additions.
-    destruct (enc_adds encT res (common ++ extra_enc) data) as [processed|] eqn:Ep; [|discriminate]. cbn [bind].
-    destruct (negb (existsb is_some processed)); [discriminate|].
-    destruct (enc_small_len (Z.of_nat (length (common ++ extra_enc)))) as [l|] eqn:El; [|discriminate]. cbn [bind].
-    destruct (enc_open_types processed) as [body|] eqn:Eb; [|discriminate]. cbn [bind]. intros H.
-    pose proof (enc_adds_length _ _ _ _ _ Ep) as Hlen.
-    set (pres := map is_some processed ++ repeat false (length (common ++ extra_enc) - length processed)) in *.
-    assert (abits = l ++ pres ++ body) by congruence. subst abits.
-    assert (Hn1 : 1 <= Z.of_nat (length (common ++ extra_enc))) by lia.
-    unfold rbind at 1. rewrite <- app_assoc. rewrite (read_small_len_rt _ _ _ Hn1 El).
-    assert (Hpl : length pres = length (common ++ extra_enc)).
-    { unfold pres. rewrite app_length, map_length, repeat_length. lia. }
-    unfold rbind at 1. rewrite Nat2Z.id. rewrite <- Hpl at 1. rewrite <- app_assoc. rewrite read_raw_app.
-    unfold pres. apply (dec_adds_compat _ _ _ _ _ _ _ _ Hx Ep Eb).
-  Qed.
-
-  (** SEQUENCE/SET: encoder knows [common ++ extra_enc], decoder [common ++ extra_dec] *)
-  Lemma dec_seq_compat root common extra_enc extra_dec data bs rest :
-    extra_enc = [] \/ extra_dec = [] ->
-    enc_seq encT res root (Some (common ++ extra_enc)) (VSeq data) = Ok bs ->
-    dec_seq decT root (Some (common ++ extra_dec)) (bs ++ rest)
-    = Ok (VSeq (norm_members normT res root data ++ norm_adds encT normT res common data), rest).
-  Proof.
-    intros Hx. unfold enc_seq, dec_seq.
-    destruct (enc_root encT res root data) as [r|] eqn:Er; [|discriminate]. cbn [bind].
-    assert (Hfalse : forall processed,
-               enc_adds encT res (common ++ extra_enc) data = Ok processed -> existsb is_some processed = false ->
-               (do* b <- read_bit; do* fs <- dec_root decT root;
-                if b then do* more <- dec_additions decT (common ++ extra_dec); rret (VSeq (fs ++ more))
-                else rret (VSeq fs)) ((false :: r) ++ rest)
-               = Ok (VSeq (norm_members normT res root data ++ norm_adds encT normT res common data), rest)).
-    { intros processed Hp He. cbn [app]. unfold rbind at 1. cbn [read_bit]. unfold rbind.
-      rewrite (dec_root_rt encT decT normT res HT _ _ _ _ Er).
-      rewrite (norm_adds_none_gen _ _ _ _ Hp He), app_nil_r. reflexivity. }
-    destruct (common ++ extra_enc) as [|a l] eqn:Eadds.
-    - intros H. assert (bs = false :: r) by congruence. subst bs.
-      apply (Hfalse []); reflexivity.
-    - destruct (enc_additions encT res (a :: l) data) as [[abits|]|] eqn:Ea; [| |discriminate]; cbn [bind].
-      + intros H. assert (bs = true :: r ++ abits) by congruence. subst bs. cbn [app]. unfold rbind at 1. cbn [read_bit].
-        unfold rbind. rewrite <- app_assoc. rewrite (dec_root_rt encT decT normT res HT _ _ _ _ Er).
-        rewrite <- Eadds in Ea.
-        assert (Hne : (1 <= length (common ++ extra_enc))%nat) by (rewrite Eadds; cbn [length]; lia).
-        rewrite (dec_additions_compat _ _ _ _ _ _ Hx Hne Ea). reflexivity.
-      + intros H. assert (bs = false :: r) by congruence. subst bs.
-        unfold enc_additions in Ea.
-        destruct (enc_adds encT res (a :: l) data) as [processed|] eqn:Ep; [|discriminate]. cbn [bind] in Ea.
-        destruct (existsb is_some processed) eqn:Ee; cbn [negb] in Ea.
-        * destruct (enc_small_len (Z.of_nat (length (a :: l)))); [|discriminate]. cbn [bind] in Ea.
-          destruct (enc_open_types processed); discriminate.
-        * apply (Hfalse processed); auto.
-  Qed.
-End Ext.
-
 (** ** The statements at the level of the type-directed codec *)
 Section ExtMain.
   Variable numeric : bool.
